@@ -16,6 +16,8 @@
 mod decoder;
 mod encoder;
 mod stream_reader;
+#[cfg(feature = "verif-hooks")]
+pub mod verif;
 
 use std::io::Read;
 use std::num::NonZeroUsize;
